@@ -3,6 +3,9 @@ package main
 import (
 	"fmt"
 	"sort"
+	"strings"
+
+	ledger "github.com/formancehq/ledger/internal"
 
 	"github.com/formancehq/ledger/verifx/vx"
 )
@@ -438,6 +441,12 @@ func oracle(r *vx.Run, h History, nm names, reads []read) bool {
 			case rd.Kind == "tx-effective-volumes" && !noBackdatingBeforeFirst(ls):
 				class = "backdated-before-first-move"
 			}
+		case "tx-expanded":
+			oracleExpanded(r, h, rd, ls, ms)
+			continue
+		case "list-transactions-by-address", "list-accounts-by-address":
+			oracleListing(r, h, rd, ls)
+			continue
 		default:
 			continue
 		}
@@ -456,4 +465,227 @@ func oracle(r *vx.Run, h History, nm names, reads []read) bool {
 		}
 	}
 	return nonEmpty
+}
+
+// ---- the expanded transaction (pre/post commit volumes, by insertion order and by effective date) ------------------------------
+type vkey struct{ a, s string }
+
+func plainVolumes(v ledger.AccountsAssetsVolumes) (map[vkey][2]int64, bool) {
+	out := map[vkey][2]int64{}
+	for a, per := range v {
+		if per == nil {
+			return nil, false
+		}
+		for s, vol := range per {
+			if vol == nil || vol.Input == nil || vol.Output == nil {
+				return nil, false
+			}
+			out[vkey{a, s}] = [2]int64{vol.Input.Int64(), vol.Output.Int64()}
+		}
+	}
+	return out, true
+}
+
+func showVolumes(m map[vkey][2]int64) string {
+	var ks []vkey
+	for k := range m {
+		ks = append(ks, k)
+	}
+	sort.Slice(ks, func(i, j int) bool { return ks[i].a < ks[j].a || ks[i].a == ks[j].a && ks[i].s < ks[j].s })
+	var xs []string
+	for _, k := range ks {
+		xs = append(xs, fmt.Sprintf("%s/%s=(%d,%d)", k.a, k.s, m[k][0], m[k][1]))
+	}
+	return strings.Join(xs, " ")
+}
+
+func oracleExpanded(r *vx.Run, h History, rd read, ls []LogIn, ms []rmove) {
+	// what the transaction itself moves, per (account, asset)
+	own := map[vkey][2]int64{}
+	first, last := map[vkey]int{}, map[vkey]int{}
+	perAcct := map[string]map[string]bool{}
+	repeated := false
+	for i, m := range ms {
+		if m.txid != rd.TxID {
+			continue
+		}
+		k := vkey{m.acct, m.asset}
+		if _, seen := first[k]; !seen {
+			first[k] = i
+		} else {
+			repeated = true
+		}
+		last[k] = i
+		v := own[k]
+		if m.src {
+			v[1] += m.amt
+		} else {
+			v[0] += m.amt
+		}
+		own[k] = v
+		if perAcct[m.acct] == nil {
+			perAcct[m.acct] = map[string]bool{}
+		}
+		perAcct[m.acct][m.asset] = true
+	}
+	multi := false
+	for _, per := range perAcct {
+		multi = multi || len(per) > 1
+	}
+	// NULL effective volumes come from back-dating (F-C04b), also when it is only apparent because offsets were dropped (F-C04c)
+	backdated := !noBackdatingBeforeFirst(ls) || !allUTC(ls)
+	if rd.Panic != "" || rd.Expanded == nil {
+		// the store could not hydrate the row: only the jsonb collapse (F-C04i) and NULL effective volumes (F-C04b) explain that
+		if multi || backdated {
+			r.Count("expanded:unreadable-in-known-class")
+			return
+		}
+		r.FailSized("replay-mismatch:tx-expanded-volumes:row-hydration-panics", h, fmt.Sprintf("GetTransactionWithVolumes(%d, expand) panics: %s", rd.TxID, rd.Panic), len(h.Logs))
+		return
+	}
+	e := rd.Expanded
+	type pair struct {
+		name      string
+		pre, post ledger.AccountsAssetsVolumes
+		eff       bool
+	}
+	for _, pr := range []pair{{"volumes", e.PreCommitVolumes, e.PostCommitVolumes, false}, {"effective-volumes", e.PreCommitEffectiveVolumes, e.PostCommitEffectiveVolumes, true}} {
+		post, ok1 := plainVolumes(pr.post)
+		pre, ok2 := plainVolumes(pr.pre)
+		if !ok1 || !ok2 {
+			if multi || backdated {
+				r.Count("expanded:null-volumes-in-known-class")
+				continue
+			}
+			r.FailSized("replay-mismatch:tx-expanded-"+pr.name+":null-volumes", h, fmt.Sprintf("transaction %d: a reported volume is null", rd.TxID), len(h.Logs))
+			continue
+		}
+		// 1. whatever the stored post-commit volumes are, pre and post differ by exactly what the transaction moves
+		//    (the pre-commit volumes are derived in Go from the post-commit ones)
+		if !multi {
+			for k, pv := range post {
+				o := own[k]
+				if q, ok := pre[k]; !ok || pv[0]-q[0] != o[0] || pv[1]-q[1] != o[1] {
+					r.FailSized("replay-mismatch:tx-expanded-"+pr.name+":pre-commit-is-not-post-commit-minus-the-transaction", h,
+						fmt.Sprintf("transaction %d, %s/%s: post %v pre %v, the transaction itself moves (in %d, out %d)", rd.TxID, k.a, k.s, pv, pre[k], o[0], o[1]), len(h.Logs))
+					break
+				}
+			}
+		} else {
+			r.Count("expanded:delta-skipped-multi-asset")
+		}
+		// 2. against the replay, where the stored volumes are right (outside the known classes)
+		class := ""
+		switch {
+		case multi:
+			class = "tx-volumes-one-asset-per-account-survives"
+		case repeated:
+			class = "tx-volumes-first-move-instead-of-last"
+		case !noSelfTransferOnNewAccount(ls):
+			class = "self-transfer-on-new-account"
+		case pr.eff && !allUTC(ls):
+			class = "zone-offset-dropped"
+		case pr.eff && !noBackdatingBeforeFirst(ls):
+			class = "backdated-before-first-move"
+		}
+		if class != "" {
+			r.Count("expanded:in-known-class:" + class)
+			continue
+		}
+		expPost, expPre := map[vkey][2]int64{}, map[vkey][2]int64{}
+		for k, at := range last {
+			var in, out int64
+			for i, m := range ms {
+				if m.acct != k.a || m.asset != k.s {
+					continue
+				}
+				inc := i <= at
+				if pr.eff {
+					inc = m.eff < ms[at].eff || m.eff == ms[at].eff && i <= at
+				}
+				if inc {
+					if m.src {
+						out += m.amt
+					} else {
+						in += m.amt
+					}
+				}
+			}
+			expPost[k] = [2]int64{in, out}
+			expPre[k] = [2]int64{in - own[k][0], out - own[k][1]}
+		}
+		if showVolumes(post) != showVolumes(expPost) {
+			r.FailSized("replay-mismatch:tx-expanded-post-commit-"+pr.name, h, fmt.Sprintf("transaction %d: reported %s, replay %s", rd.TxID, showVolumes(post), showVolumes(expPost)), len(h.Logs))
+		} else if showVolumes(pre) != showVolumes(expPre) {
+			r.FailSized("replay-mismatch:tx-expanded-pre-commit-"+pr.name, h, fmt.Sprintf("transaction %d: reported %s, replay %s", rd.TxID, showVolumes(pre), showVolumes(expPre)), len(h.Logs))
+		} else {
+			r.Count("oracle-agree:tx-expanded-" + pr.name)
+		}
+	}
+}
+
+// ---- listings filtered by an address pattern ------------------------------------------------------------------------------------
+// same number of segments; an empty pattern segment matches any segment
+func segMatch(pattern, addr string) bool {
+	ps, as := strings.Split(pattern, ":"), strings.Split(addr, ":")
+	if len(ps) != len(as) {
+		return false
+	}
+	for i := range ps {
+		if ps[i] != "" && ps[i] != as[i] {
+			return false
+		}
+	}
+	return true
+}
+
+func oracleListing(r *vx.Run, h History, rd read, ls []LogIn) {
+	var exp []string
+	if rd.Kind == "list-accounts-by-address" {
+		known := map[string]bool{}
+		for _, e := range ls {
+			for _, a := range logAccounts(e) {
+				known[a] = true
+			}
+		}
+		for _, a := range sortedKeys(known) {
+			if segMatch(rd.Pattern, a) {
+				exp = append(exp, a)
+			}
+		}
+	} else {
+		seen := map[int64]bool{}
+		for _, e := range ls {
+			if e.Tx == nil || seen[e.Tx.ID] {
+				continue
+			}
+			seen[e.Tx.ID] = true
+			hit := false
+			for _, p := range e.Tx.Postings {
+				if (rd.Key == "account" || rd.Key == "source") && segMatch(rd.Pattern, p.Src) {
+					hit = true
+				}
+				if (rd.Key == "account" || rd.Key == "destination") && segMatch(rd.Pattern, p.Dst) {
+					hit = true
+				}
+			}
+			if hit {
+				exp = append(exp, fmt.Sprint(e.Tx.ID))
+			}
+		}
+	}
+	got := append([]string(nil), rd.IDs...)
+	sort.Strings(got)
+	sort.Strings(exp)
+	in := map[string]any{"history": h, "filter": rd.Key, "pattern": rd.Pattern, "ledger": rd.Ledger}
+	if strings.Join(got, ",") != strings.Join(exp, ",") {
+		r.FailSized("replay-mismatch:"+rd.Kind, in, fmt.Sprintf("ledger %s, $match %s ~ %q: the store lists [%s], matching the replayed log segment by segment gives [%s]",
+			rd.Ledger, rd.Key, rd.Pattern, strings.Join(got, ","), strings.Join(exp, ",")), len(h.Logs))
+		return
+	}
+	if rd.Kind == "list-transactions-by-address" && rd.Count != len(exp) {
+		r.FailSized("replay-mismatch:count-transactions-by-address", in, fmt.Sprintf("ledger %s, $match %s ~ %q: CountTransactions = %d, replay %d", rd.Ledger, rd.Key, rd.Pattern, rd.Count, len(exp)), len(h.Logs))
+		return
+	}
+	r.Count("oracle-agree:" + rd.Kind)
 }
